@@ -111,7 +111,7 @@ def run(chk):
     quick = chk.tier == "quick"
     r = random.Random(chk.seed)
     shapes = T.tlc_trees(chk, 4 if quick else 5, 1200 if quick else 100000, chk.seed)
-    shapes += T.tlc_trees(chk, 5, 300 if quick else 3000, chk.seed + 1)
+    shapes += T.tlc_trees(chk, 6, 300, chk.seed + 1, which="random") if quick else T.tlc_trees(chk, 5, 3000, chk.seed + 1)      # (enumerating all 5-node trees takes > 1 min)
     names = T.tlc_trees(chk, 4, 100000, chk.seed, which="names")
     items = []
     for n, t in enumerate(names):
